@@ -294,9 +294,14 @@ KeepsNewest(max, nwritten, ids) ==
 InOrder(ids) == \A i, j \in 1..Len(ids) : i < j => ids[i] < ids[j]
 
 (* A machine rebuilt with Import from an Export                                *)
+(* x.ta: the ticks of the rebuilt machine read BY NAME (in the exporter's      *)
+(* order), x.tapos: its positional Time() - Import adopts the exported name    *)
+(* order, so both equal the exported time whatever order the importing        *)
+(* machine had its names in before (same, reversed, never verified)            *)
 ImportRestores(x) ==
   /\ x.err = ""
   /\ x.ta = x.tb
+  /\ x.tapos = x.tb
   /\ SSet(x.aa) = SSet(x.ab)
   /\ SSet(x.aa) = {i \in 1..Len(x.ta) : IsActive(x.ta[i])}
   /\ x.mta = x.mtb + 1
